@@ -2,6 +2,7 @@ package c02
 
 import (
 	"fmt"
+	"os"
 	"sort"
 	"testing"
 
@@ -108,6 +109,15 @@ func CheckBlocks(a *inssvc.Analysis) error {
 		}
 		if len(p.Blocks) > len(p.Subs) {
 			return fmt.Errorf("request %d (%s part) was submitted %d time(s) but its rows are in %d INSERT blocks (#%d …)", p.ReqID, p.Kind, len(p.Subs), len(p.Blocks), p.Blocks[0].Seq)
+		}
+		okBlocks := 0
+		for _, blk := range p.Blocks {
+			if blk.OKResult() {
+				okBlocks++
+				if okBlocks == 2 {
+					return fmt.Errorf("request %d (%s part) was sent again in INSERT #%d although an earlier INSERT carrying its rows had already succeeded: its rows are stored twice", p.ReqID, p.Kind, blk.Seq)
+				}
+			}
 		}
 		for _, blk := range p.Blocks {
 			n := 0
@@ -265,6 +275,9 @@ func Classify(a *inssvc.Analysis, ob *evid.Obs) {
 	for _, rq := range tr.Reqs {
 		if rq.HTTP {
 			ob.Tag("parser:" + rq.Proto)
+			if d, st, _, _ := rq.Result(); d {
+				ob.Tag(fmt.Sprintf("parser:%s:%dxx", rq.Proto, st/100))
+			}
 		} else if rq.Direct != nil && len(rq.Direct.Rows) == 0 {
 			ob.Tag("request-rows:0")
 		}
@@ -306,6 +319,34 @@ func addHistory(r *evid.Run) {
 			tr := inssvc.RunHistory(h)
 			a := inssvc.Analyse(tr)
 			Classify(a, ob)
+			return CheckBlocks(a)
+		},
+	})
+}
+
+// addStall registers the "long stall" class: thorough tier only (Quick: 0), one case per
+// shard, about 35 s of wall time. It is the only class whose behaviour depends on the wall
+// clock: the INSERTs are really held longer than any per-attempt waiting bound.
+func addStall(r *evid.Run) {
+	evid.Add(r, evid.Prop[inssvc.Stall]{
+		Name: "stall", Quick: 0, Thorough: 1,
+		Gen: inssvc.GenStall,
+		Pred: func(s inssvc.Stall, ob *evid.Obs) error {
+			scale := 1.0
+			if v := os.Getenv("VERIF_STALL_SCALE"); v != "" { // development aid
+				fmt.Sscan(v, &scale)
+			}
+			tr := inssvc.RunStall(s, scale)
+			a := inssvc.Analyse(tr)
+			Classify(a, ob)
+			ob.Tag("long-stall")
+			for _, h := range s.Holds {
+				ob.Tag("long-stall:" + h.Proto)
+			}
+			ob.NonTrivial()
+			if tr.Unanswered != "" {
+				return fmt.Errorf("%s", tr.Unanswered)
+			}
 			return CheckBlocks(a)
 		},
 	})
